@@ -249,7 +249,8 @@ fn main() {
         let years: Vec<TaxYearSummary> = batch.iter().enumerate().filter_map(|(i, v)| year_for(v, 1900 + ((bi * BATCH + i) % 200) as u16)).collect();
         let report = TaxReport {
             tax_years: years.clone(),
-            holdings: vec![Section104Holding { ticker: "AAA".into(), quantity: Decimal::from(8), total_cost: milli(batch[0].hold_k) }],
+            // one holding per value of the batch (H00, H01, ...): 8 shares whose total cost is hold_k
+            holdings: batch.iter().enumerate().map(|(i, v)| Section104Holding { ticker: format!("H{i:02}"), quantity: Decimal::from(8), total_cost: milli(v.hold_k) }).collect(),
             transactions: vec![],
         };
         let desc = |v: &Fmt| format!("value {} (thousandths of a pound); expected pence {} i.e. {}", v.k, v.pence, pound(&v.gbp));
@@ -312,9 +313,9 @@ fn main() {
             if money_tokens(np) != want_np { bad.push(format!("text net proceeds line {np:?}, expected the figures {want_np:?}")); }
             let cl = first.iter().find(|l| l.trim_start().starts_with("Cost:")).map(|l| l.trim()).unwrap_or("");
             if cl != format!("Cost: {}", pound(&v.cost_gbp)) { bad.push(format!("text cost line {cl:?}, expected Cost: {}", pound(&v.cost_gbp))); }
-            if i == 0 {
+            {
                 // the text report writes the average rounded to pence without trailing zeros ("£1" for 1.00): compare the value
-                let line = plain_text.lines().find(|l| l.starts_with("AAA: 8 units at ")).unwrap_or("");
+                let line = plain_text.lines().find(|l| l.starts_with(&format!("H{i:02}: 8 units at "))).unwrap_or("");
                 let val = |t: &str| Decimal::from_str(&t.replace(['£', ','], "")).ok();
                 let got = money_tokens(line).first().and_then(|t| val(t));
                 if got.is_none() || got != val(&pound(&v.hold_avg_gbp)) { bad.push(format!("text holdings line {line:?}, expected an average cost of {}", pound(&v.hold_avg_gbp))); }
@@ -378,13 +379,13 @@ fn main() {
                     }
                 }
             }
-            if i == 0 {
-                if let Some(pt) = &pdf_text {
-                    let runs: Vec<&str> = pt.lines().map(|l| l.trim()).collect();
-                    let h = runs.iter().position(|r| *r == "Holdings").map(|p| runs[p..].iter().take(12).copied().collect::<Vec<_>>()).unwrap_or_default();
-                    let want = [ "AAA", "8", &pound(&v.hold_avg_gbp) ];
-                    if !h.windows(3).any(|w| w == want) { bad.push(format!("PDF holdings table {:?}, expected the row {:?}", h, want)); }
-                }
+            if let Some(pt) = &pdf_text {
+                let runs: Vec<&str> = pt.lines().map(|l| l.trim()).collect();
+                let tick = format!("H{i:02}");
+                let h = runs.iter().position(|r| *r == "Holdings").map(|p| runs[p..].to_vec()).unwrap_or_default();
+                let row = h.iter().position(|r| *r == tick).map(|p| h[p..].iter().take(3).copied().collect::<Vec<_>>()).unwrap_or_default();
+                let want = [tick.as_str(), "8", &pound(&v.hold_avg_gbp)];
+                if row != want { bad.push(format!("PDF holdings row {:?}, expected {:?}", row, want)); }
             }
             if !bad.is_empty() {
                 fs.push(Finding { prop: "C17".into(), kind: if bad.iter().any(|b| b.starts_with("PDF")) { "pdf_figure".into() } else if bad.iter().any(|b| b.starts_with("JSON")) { "json_figure".into() } else { "text_figure".into() },
